@@ -41,6 +41,82 @@ Proof. reflexivity. Qed.
 Theorem progn_on_rest_many x y r :
   progn_on_rest (Cons x (Cons y r)) = Ok (Cons (S_ "progn") (Cons x (Cons y r))).
 Proof. reflexivity. Qed.
+
+(* if-let* with bindings of the shape (VAR EXPR): each variable is bound to      *)
+(* (and PREVIOUS-VARIABLE EXPR) - the first to (and t EXPR) - by one let*, and    *)
+(* the THEN form is chosen by the last variable: all the expressions were non-nil *)
+Definition mk_binding (b : sx * sx) : sx := of_list [fst b; snd b] Nil.
+Fixpoint chain (bs : list (sx * sx)) (prev : sx) : list sx :=
+  match bs with
+  | [] => []
+  | (v, e) :: r => of_list [v; of_list [S_ "and"; prev; e] Nil] Nil :: chain r v
+  end.
+Definition last_var (bs : list (sx * sx)) : sx := fst (List.last bs (Nil, Nil)).
+
+Lemma build_bindings_chain : forall bs prev acc s,
+  build_bindings (map mk_binding bs) prev acc s = (Ok (of_list (acc ++ chain bs prev) Nil), s).
+Proof.
+  induction bs as [|[v e] bs IH]; intros prev acc s.
+  - simpl. rewrite app_nil_r. reflexivity.
+  - cbn [map build_bindings]. unfold bind at 1.
+    assert (E : build_binding (mk_binding (v, e)) prev s =
+                (Ok (of_list [v; of_list [S_ "and"; prev; e] Nil] Nil), s)) by reflexivity.
+    rewrite E. unfold bind at 1, lift. cbn [car_of of_list].
+    rewrite IH. cbn [chain]. rewrite <- app_assoc. reflexivity.
+Qed.
+
+Lemma chain_last : forall bs prev, bs <> [] ->
+  exists xs p, chain bs prev = xs ++ [of_list [last_var bs; of_list [S_ "and"; p; snd (List.last bs (Nil, Nil))] Nil] Nil].
+Proof.
+  induction bs as [|[v e] bs IH]; intros prev Hne; [congruence|].
+  destruct bs as [|b2 bs'].
+  - exists [], prev. reflexivity.
+  - destruct (IH v ltac:(discriminate)) as (xs & p & E).
+    change (chain ((v, e) :: b2 :: bs') prev)
+      with (of_list [v; of_list [S_ "and"; prev; e] Nil] Nil :: chain (b2 :: bs') v). rewrite E.
+    exists (of_list [v; of_list [S_ "and"; prev; e] Nil] Nil :: xs), p.
+    unfold last_var. reflexivity.
+Qed.
+
+Lemma bind_ok {A B} (m : M A) (f : A -> M B) s a s' : m s = (Ok a, s') -> bind m f s = f a s'.
+Proof. unfold bind. intros ->. reflexivity. Qed.
+
+Theorem if_let_star_expansion bs thn rest s : bs <> [] -> listp rest = true ->
+  apply_pmac rec MIfLetStar (Cons (of_list (map mk_binding bs) Nil) (Cons thn rest)) s =
+  (Ok (of_list [S_ "let*"; of_list (chain bs T) Nil;
+                of_list [S_ "if"; last_var bs; thn] rest] Nil), s).
+Proof.
+  intros Hne Hrest. cbn [apply_pmac].
+  erewrite bind_ok by reflexivity. cbv beta iota.
+  erewrite bind_ok by reflexivity. cbv beta iota.
+  assert (Hn : null (of_list (map mk_binding bs) Nil) = false) by (destruct bs; [congruence|reflexivity]).
+  rewrite Hn. rewrite items_proper.
+  erewrite bind_ok by (apply (build_bindings_chain bs T [])). simpl app.
+  destruct (chain_last bs T Hne) as (xs & p & E). rewrite E.
+  erewrite bind_ok by (unfold lift; rewrite last_spec; reflexivity).
+  erewrite bind_ok by reflexivity.
+  assert (Ha : append2 (of_list [S_ "if"; last_var bs; thn] Nil) (nil_append rest) =
+               Ok (of_list [S_ "if"; last_var bs; thn] rest)).
+  { destruct rest; try discriminate Hrest; reflexivity. }
+  cbn [of_list] in Ha.
+  erewrite bind_ok by (unfold lift; cbn [cxr car_of of_list]; rewrite Ha; reflexivity).
+  reflexivity.
+Qed.
+
+(* if-let with a list of bindings is if-let* with the ELSE forms under one progn *)
+Theorem if_let_expansion spec thn rest s c pr :
+  car_of spec = Ok c -> listp c = true -> progn_on_rest rest = Ok pr ->
+  apply_pmac rec MIfLet (Cons spec (Cons thn rest)) s =
+  (Ok (of_list [S_ "if-let*"; spec; thn; pr] Nil), s).
+Proof.
+  intros Hc Hl Hp. cbn [apply_pmac].
+  erewrite bind_ok by reflexivity. cbv beta iota.
+  erewrite bind_ok by reflexivity. cbv beta iota.
+  erewrite bind_ok by (unfold lift; rewrite Hc; reflexivity).
+  rewrite Hl, andb_false_r.
+  erewrite bind_ok by (unfold lift; rewrite Hp; reflexivity).
+  reflexivity.
+Qed.
 End Pmac.
 
 (* threading: -> inserts the accumulated form as second element, ->> as last *)
